@@ -73,6 +73,7 @@ class Planner:
         self.poisoned = False
         self.watch = []  # objects whose round trips are worth repeating after comparisons
         self.renumbered = set()  # forms that hold canonically renumbered coefficients
+        self.must_succeed = []  # output slots of valid constructor calls that follow a rejected one
 
     # ---------------------------------------------------------------- emission
     def new(self):
@@ -2333,7 +2334,10 @@ class Planner:
         for bad, good in r.sample(bad_good, r.randint(2, 5)):
             self.emit(["call", self.new(), bad[0], bad[1]], keep_failed=True)
             if good is not None:
-                g = self.call(good[0], *good[1])
+                # the valid call is kept in the plan even if it fails here: after a rejected
+                # call with equal arguments it must still succeed (clause E0)
+                g = self.call(good[0], *good[1], keep_failed=True)
+                self.must_succeed.append(self.next - 1)
                 if g is not None and good[0].endswith("FixedIndex"):
                     # the interned index inside an expression of the pool
                     g = self.call("ufl.classes.MultiIndex", ["t", self.ref(g)])
@@ -2413,6 +2417,7 @@ class Planner:
         res["mesh_ops"] = [i for i, op in enumerate(self.ops) if op[0] == "call" and op[2] == "ufl.Mesh" and len(op) == 4]
         res["watch"] = [w for w in self.watch if w in pool]
         res["dicts"] = [d for d in self.dicts if d in self.node.slots]
+        res["must_succeed"] = list(self.must_succeed)
         return res
 
     def flat_form(self, M):
